@@ -96,6 +96,10 @@ pub enum Ty {
     Flag,
     /// raw mode: a raw pointer; a translation-time value only (no Coq type)
     Ptr,
+    /// heap mode (rule 31): `HeapVec` = its single field `data`; Coq: `vec` of model/Vec.v
+    Hv,
+    /// heap mode: `std::vec::Vec<Limb>`; Coq: `vec`
+    StdVec,
     /// an iterator, as the list of the items not yet consumed
     Seq(Box<Ty>),
     /// `cmp::Ordering`; Coq: `comparison`
@@ -141,6 +145,7 @@ impl Ty {
             Ty::Seq(t) => format!("(list {})", t.coq()),
             Ty::Ordering => "comparison".into(),
             Ty::Raw => "raw".into(),
+            Ty::Hv | Ty::StdVec => "vec".into(),
             Ty::Flag => "bool".into(),
             Ty::Ptr => "(* raw pointer *)".into(),
             Ty::OptUpd => "(* option of the updated arguments *)".into(),
